@@ -1125,6 +1125,12 @@ func genStream(c *Ctx) {
 					if err := f.writeStream(w, fs); err == nil && fs.failed {
 						swallowedW = append(swallowedW, j)
 					}
+					if fs.failed {
+						// right after a call that failed, the next one starts from scratch
+						if d2, err := f.write(w); err != nil || len(d2) != len(data) || ctnObs(f.read(d2)) != base {
+							agree = false
+						}
+					}
 					fss := &failingStringSink{failingSink{ok: j}}
 					if err := f.writeStream(w, fss); err == nil && fss.failed {
 						swallowedW = append(swallowedW, 500000+j)
@@ -1138,6 +1144,15 @@ func genStream(c *Ctx) {
 						swallowedW = append(swallowedW, 700000+j)
 					}
 				}
+			}
+			// a call that failed leaves nothing behind: the same writer, through the buffered and the streaming call, still
+			// produces a container that reads back as the same tokens, with as many bytes as the first time
+			if data2, err := f.write(w); err != nil || len(data2) != len(data) || ctnObs(f.read(data2)) != base {
+				agree = false
+			}
+			again := &failingSink{ok: 1 << 30}
+			if err := f.writeStream(w, again); err != nil || again.buf.Len() != len(data) || ctnObs(f.read(again.buf.Bytes())) != base {
+				agree = false
 			}
 			c.Emit("stream/container-"+f.name, WList(WStr("container"), WStr(f.name), WBytes(data), WList(facts...), WList()),
 				WList(intsW(swallowed), intsW(early), intsW(swallowedW), WBool(agree)))
